@@ -6,14 +6,13 @@ CONSTANTS
   AcqBarrier = TRUE
   NotLeaderPanics = FALSE
   ApplyRefuses = TRUE
-  QueueGroup = TRUE
+  QueueGroup = FALSE
   MaxReq = 2
   MaxTransfers = 2
   MaxCancels = 0
   MaxSlow = 1
   MaxLog = 3
   OpSet = {"create", "delete", "expand", "shrink", "elect"}
-INVARIANTS TypeOK Inv_Current Inv_AtMostOneEffect Inv_OkCommitted Inv_RefusedNoEntry Inv_NoCrash
-PROPERTIES StepsOK
+INVARIANTS X04_AtMostOneEffect
 VIEW MCView
 CHECK_DEADLOCK FALSE
